@@ -9,7 +9,7 @@ end cloudconstants
 
 namespace Skel
 def Mem_AppendToList : List String := ["mu.Lock", "defer mu.Unlock", "@m.data", "@m.data", "@m.data", "{ret", "@m.data", "Add", "}", "IsZero", "@item.Expiration", "After", "@item.Expiration", "{ret", "@m.data", "Add", "}", "@item.Value", "{ret", "@item.Value", "}"]
-def Mem_CleanupExpired : List String := ["mu.RLock", "@m.data", "IsZero", "@item.Expiration", "After", "@item.Expiration", "mu.RUnlock", "{ret", "}", "mu.Lock", "defer mu.Unlock", "delete", "@m.data"]
+def Mem_CleanupExpired : List String := ["mu.Lock", "defer mu.Unlock", "@m.data", "IsZero", "@item.Expiration", "After", "@item.Expiration", "delete", "@m.data"]
 def Mem_CompareAndSwap : List String := ["mu.Lock", "defer mu.Unlock", "@m.data", "@m.data", "@m.data", "{ret", "{ret", "@m.data", "expirationFor", "}", "}", "IsZero", "@item.Expiration", "After", "@item.Expiration", "{ret", "delete", "@m.data", "{ret", "@m.data", "expirationFor", "}", "}", "@item.Value", "{ret", "}", "@item.Value", "@item.Expiration", "expirationFor"]
 def Mem_Delete : List String := ["mu.Lock", "defer mu.Unlock", "delete", "@m.data"]
 def Mem_DeleteHash : List String := ["mu.Lock", "defer mu.Unlock", "@m.data", "{ret", "}", "IsZero", "@item.Expiration", "After", "@item.Expiration", "{ret", "delete", "@m.data", "}", "@hash", "@item.Value", "{ret", "delete", "@hash", "}"]
